@@ -1032,6 +1032,11 @@ func (s *Store) Balance(ns walletdb.ReadBucket, minConf int32, syncHeight int32)
 		return 0, err
 	}
 
+	// Read the clock once: every lease is judged against the same instant,
+	// so a lease expiring while the balance is computed is not counted as
+	// both active and expired.
+	now := s.clock.Now()
+
 	// Subtract the balance for each credit that is spent by an unmined
 	// transaction.
 	var op wire.OutPoint
@@ -1047,7 +1052,7 @@ func (s *Store) Balance(ns walletdb.ReadBucket, minConf int32, syncHeight int32)
 		}
 
 		// Subtract the output's amount if it's locked.
-		_, _, isLocked := isLockedOutput(ns, op, s.clock.Now())
+		_, _, isLocked := isLockedOutput(ns, op, now)
 		if isLocked {
 			_, v := existsCredit(ns, &op.Hash, op.Index, &block)
 			amt, err := fetchRawCreditAmount(v)
@@ -1108,9 +1113,7 @@ func (s *Store) Balance(ns walletdb.ReadBucket, minConf int32, syncHeight int32)
 				// if it was already removed for being spent by
 				// an unmined tx or being locked.
 				op = wire.OutPoint{Hash: *txHash, Index: i}
-				_, _, isLocked := isLockedOutput(
-					ns, op, s.clock.Now(),
-				)
+				_, _, isLocked := isLockedOutput(ns, op, now)
 				if isLocked {
 					continue
 				}
@@ -1152,7 +1155,7 @@ func (s *Store) Balance(ns walletdb.ReadBucket, minConf int32, syncHeight int32)
 
 			// Skip adding the balance for this output if it's
 			// locked.
-			_, _, isLocked := isLockedOutput(ns, op, s.clock.Now())
+			_, _, isLocked := isLockedOutput(ns, op, now)
 			if isLocked {
 				return nil
 			}
